@@ -13,27 +13,29 @@ pub fn mk_storage_stub(max_height: u64) -> ChainStorage {
     ChainStorage { chain_index: ix::mk_index(max_height, ix::new_map(), ix::new_map()), blk_files: HashMap::new(), coin: ix::mk_coin(0, None), verify: false }
 }
 
+// The height -> file assignment is part of the shape (concrete per instance: a symbolic assignment
+// makes the keys of the two maps symbolic and did not finish in 25 min); offsets (full-width u64), the
+// queried height and the open/closed pre-state are symbolic.
 macro_rules! get_block_one {
-    ($name:ident, $t:expr) => {
+    ($name:ident, $t:expr, [$f0:expr, $f1:expr, $f2:expr, $f3:expr]) => {
         #[kani::proof]
         #[kani::unwind(8)]
-            #[kani::stub(crate::blockchain::proto::script::eval_from_bytes, crate::blockchain::parser::reader::vk_reader_c01::stub_eval)]
-            #[kani::stub(<bitcoin::hashes::sha256::HashEngine as bitcoin::hashes::HashEngine>::input, crate::verif_models::ghost::stub_engine_input)]
-            #[kani::stub(<bitcoin::hashes::sha256d::Hash as bitcoin::hashes::Hash>::from_engine, crate::verif_models::ghost::stub_sha256d_fin)]
-            #[kani::stub(<bitcoin::hashes::hash160::Hash as bitcoin::hashes::Hash>::from_engine, crate::verif_models::ghost::stub_hash160_fin)]
+        #[kani::stub(crate::blockchain::proto::script::eval_from_bytes, crate::blockchain::parser::reader::vk_reader_c01::stub_eval)]
+        #[kani::stub(<bitcoin::hashes::sha256::HashEngine as bitcoin::hashes::HashEngine>::input, crate::verif_models::ghost::stub_engine_input)]
+        #[kani::stub(<bitcoin::hashes::sha256d::Hash as bitcoin::hashes::Hash>::from_engine, crate::verif_models::ghost::stub_sha256d_fin)]
+        #[kani::stub(<bitcoin::hashes::hash160::Hash as bitcoin::hashes::Hash>::from_engine, crate::verif_models::ghost::stub_hash160_fin)]
         fn $name() {
             const T: usize = $t;
-            // layout: height -> (file in {0,1,2}, offset full-width u64); files 0 and 1 exist, 2 does not
-            let file: [u8; 4] = kani::any();
+            // layout: height -> file in {0,1,2}; files 0 and 1 exist, 2 does not
+            const FILE: [usize; 4] = [$f0, $f1, $f2, $f3];
             let off: [u64; 4] = kani::any();
             let mut bi = ix::new_map();
             let mut mhb: HashMap<u64, u64> = ix::new_map();
             let mut last = [-1i64; 3];
             let mut h = 0usize;
             while h <= T {
-                kani::assume(file[h] < 3);
-                bi.insert(h as u64, ix::mk_record([0; 32], h as u64, file[h] as u64, off[h]));
-                last[file[h] as usize] = h as i64;
+                bi.insert(h as u64, ix::mk_record([0; 32], h as u64, FILE[h] as u64, off[h]));
+                last[FILE[h]] = h as i64;
                 h += 1;
             }
             let mut f = 0usize;
@@ -53,11 +55,11 @@ macro_rules! get_block_one {
                 }
                 f += 1;
             }
-            let opens_before = unsafe { gfs::OPENS };
+            let opens_before = unsafe { gfs::OPENS.v };
             let mut cs = ChainStorage { chain_index: ix::mk_index(T as u64, bi, mhb), blk_files: files, coin: ix::mk_coin(0, None), verify: false };
-            unsafe { hooks::RB_STUB_ON = true; }
+            unsafe { hooks::RB_STUB_ON.v = true; }
             let r = cs.get_block(hq);
-            let calls = unsafe { hooks::RB_CALLS };
+            let calls = unsafe { hooks::RB_CALLS.v };
             if hq > T as u64 {
                 match r {
                     Ok(None) => {}
@@ -65,7 +67,7 @@ macro_rules! get_block_one {
                 }
                 assert!(calls == 0, "C02:no_read_past_the_index");
             } else {
-                let f = file[hq as usize] as usize;
+                let f = FILE[hq as usize];
                 if f == 2 {
                     assert!(r.is_err(), "C10:missing_blk_file_is_an_error");
                     assert!(calls == 0, "C03:no_read_from_other_file");
@@ -73,7 +75,7 @@ macro_rules! get_block_one {
                     match r {
                         Ok(Some(ref b)) => {
                             assert!(calls == 1, "C03:exactly_one_read");
-                            let (rf, ro) = unsafe { (hooks::RB_FILE[0], hooks::RB_OFFSET[0]) };
+                            let (rf, ro) = unsafe { (hooks::RB_FILE.v[0], hooks::RB_OFFSET.v[0]) };
                             assert!(rf == f as u64, "C03:block_read_from_the_file_its_record_names");
                             assert!(ro == off[hq as usize], "C03:block_read_at_the_offset_its_record_names");
                             assert!(b.header.value.version == f as u32 && b.size == off[hq as usize] as u32, "C03:delivered_block_is_the_one_read");
@@ -83,7 +85,7 @@ macro_rules! get_block_one {
                     // C17: close rule and transparent reopen
                     let fo = bx::is_open(cs.blk_files.get(&(f as u64)).unwrap());
                     assert!(fo == ((hq as i64) < last[f]), "C17:file_closed_iff_its_highest_block_was_delivered");
-                    let reopened = unsafe { gfs::OPENS[f] } - opens_before[f];
+                    let reopened = unsafe { gfs::OPENS.v[f] } - opens_before[f];
                     assert!(reopened == if pre_open[f] { 0 } else { 1 }, "C17:closed_file_is_reopened_exactly_once");
                     let g = 1 - f;
                     assert!(bx::is_open(cs.blk_files.get(&(g as u64)).unwrap()) == pre_open[g], "C17:other_files_untouched");
@@ -97,22 +99,28 @@ macro_rules! get_block_one {
                     }
                 }
             }
-            kani::cover!(hq <= T as u64 && file[hq as usize] == 2, "record names a missing file");
             kani::cover!(hq == T as u64 + 1, "height past the index");
-            kani::cover!(hq <= T as u64 && file[hq as usize] < 2 && off[hq as usize] > u32::MAX as u64, "offset beyond 4 GiB");
-            kani::cover!(hq <= T as u64 && file[hq as usize] == 0 && !pre_open[0] && (hq as i64) < last[0], "reopen of a file needed again later");
-            kani::cover!(hq <= T as u64 && file[hq as usize] == 0 && pre_open[0] && hq as i64 == last[0], "last block of an open file: close");
-            kani::cover!(T == 0 || (file[0] == 0 && file[1] == 1 && file[T] == 0), "interleaved files");
+            kani::cover!(hq <= T as u64 && off[hq as usize] > u32::MAX as u64, "offset beyond 4 GiB");
+            kani::cover!(hq <= T as u64 && FILE[hq as usize] < 2 && !pre_open[FILE[hq as usize]], "file opened on demand");
+            kani::cover!(hq <= T as u64 && FILE[hq as usize] < 2 && pre_open[FILE[hq as usize]], "file already open");
             core::mem::forget(r);
             core::mem::forget(cs);
         }
     };
 }
 
-//@ id=C02,C03,C17,C10 tier=quick name=c02_get_block_one_t1 timeout=1500 role=get_block_one bound=2-heights-over-files-{0,1,missing},offsets-full-u64,any-open/closed-pre-state fn=ChainStorage::get_block,ChainIndex::get,ChainIndex::max_height_by_blk,BlkFile::open,BlkFile::close
-get_block_one!(c02_get_block_one_t1, 1);
-//@ id=C02,C03,C17,C10 tier=quick name=c02_get_block_one_t3 timeout=2400 role=get_block_one bound=4-heights-over-files-{0,1,missing},offsets-full-u64,any-open/closed-pre-state mem=20
-get_block_one!(c02_get_block_one_t3, 3);
+//@ id=C02,C03,C17,C10 tier=quick name=c02_gbo_01 timeout=1500 role=get_block_one bound=heights-0,1-in-files-0,1;offsets-full-u64;any-open/closed-pre-state fn=ChainStorage::get_block,ChainIndex::get,ChainIndex::max_height_by_blk,BlkFile::open,BlkFile::close
+get_block_one!(c02_gbo_01, 1, [0, 1, 0, 0]);
+//@ id=C02,C03,C17,C10 tier=quick name=c02_gbo_0101 timeout=2400 role=get_block_one bound=heights-0..3-interleaved-in-files-0,1,0,1 mem=20
+get_block_one!(c02_gbo_0101, 3, [0, 1, 0, 1]);
+//@ id=C02,C03,C17,C10 tier=quick name=c02_gbo_12 timeout=1500 role=get_block_one bound=heights-0,1-in-files-1,missing
+get_block_one!(c02_gbo_12, 1, [1, 2, 0, 0]);
+//@ id=C02,C03,C17,C10 tier=thorough name=c02_gbo_0011 timeout=2400 role=get_block_one bound=heights-0..3-disjoint-spans-files-0,0,1,1 mem=20
+get_block_one!(c02_gbo_0011, 3, [0, 0, 1, 1]);
+//@ id=C02,C03,C17,C10 tier=thorough name=c02_gbo_1001 timeout=2400 role=get_block_one bound=heights-0..3-in-files-1,0,0,1(file-1-needed-again-later) mem=20
+get_block_one!(c02_gbo_1001, 3, [1, 0, 0, 1]);
+//@ id=C02,C03,C17,C10 tier=thorough name=c02_gbo_00 timeout=1500 role=get_block_one bound=heights-0,1-in-one-file
+get_block_one!(c02_gbo_00, 1, [0, 0, 0, 0]);
 
 // ---- C09 verify_iff ---------------------------------------------------------------------------
 // ChainStorage::verify(block, h): Ok iff computed merkle root == header root and (h == 0: header hash
@@ -138,7 +146,7 @@ fn arr_eq(a: &[u8; 32], b: &[u8; 32]) -> bool {
 #[kani::stub(<bitcoin::hashes::sha256d::Hash as bitcoin::hashes::Hash>::from_engine, crate::verif_models::ghost::stub_sha256d_fin)]
 #[kani::stub(<bitcoin::hashes::hash160::Hash as bitcoin::hashes::Hash>::from_engine, crate::verif_models::ghost::stub_hash160_fin)]
 fn c09_verify_iff() {
-    unsafe { crate::verif_models::fmtm::CONST_ROWS = true; } // error texts are not part of the property
+    unsafe { crate::verif_models::fmtm::CONST_ROWS.v = true; } // error texts are not part of the property
     let txid: [u8; 32] = kani::any();
     let root_field: [u8; 32] = kani::any();
     let prev_field: [u8; 32] = kani::any();
